@@ -65,10 +65,22 @@ def main(tier_: str) -> int:
             for q in ('', 'timeline=1'):
                 vecs.append(('vtt', tmpl, 'vod', q))
         vecs.append(('vtt', 'hand_made.mpd', 'odvod', ''))
+        # media stored with top-level `free` padding after moov, between fragments and at the end of the file
+        for tmpl in OD_TEMPLATES:
+            vecs.append(('pad', tmpl, 'odvod', ''))
+        for q in ('', 'timeline=1'):
+            vecs.append(('pad', 'hand_made.mpd', 'vod', q))
         with DashApp(d / 'app', fixtures=('bbb', 'tears')) as da:
             from harness.core import REPO
             da.add_fixture('bbb', directory='vtt', title='stored without tfdt', only={'bbb_v7', 'bbb_a1'},
                            extra=[(REPO / 'tests' / 'fixtures' / 'webvtt.mp4', 'vtt_t2')])
+            from harness.synth import pad_with_free
+            padded = []
+            for stem in ('bbb_v6', 'bbb_t1'):
+                pf = d / f'pad_{stem[4:]}.mp4'
+                pf.write_bytes(pad_with_free((REPO / 'tests' / 'fixtures' / 'bbb' / f'{stem}.mp4').read_bytes()))
+                padded.append((pf, f'pad_{stem[4:]}'))
+            da.add_fixture('bbb', directory='pad', title='stored with free padding', only={'bbb_v7', 'bbb_a1'}, extra=padded)
             drv = StaticDriver(da)
             for i, (stream, tmpl, mode, q) in enumerate(vecs):
                 lines.extend(drv.static_manifest(1000 + i, stream, tmpl, mode, q, now))
@@ -98,7 +110,7 @@ def main(tier_: str) -> int:
             'refused_or_unsupported': len(refused),
             'samples': [{k: walks[npure][k] for k in ('url', 'rep', 'by', 'keys', 'past', 'sample_url')},
                         {k: walks[-1][k] for k in walks[-1] if k not in ('fetched', 'seg_pos', 'seg_end', 'media_ranges')}],
-            'bounds': 'fixture streams bbb and tears, plus bbb video/audio with the tfdt-less webvtt.mp4 as text track; all vod templates and both odvod templates; tier ' + tier_,
+            'bounds': 'fixture streams bbb and tears, plus bbb video/audio with the tfdt-less webvtt.mp4 as text track, plus copies of bbb_v6 / bbb_t1 with top-level free padding; all vod templates and both odvod templates; tier ' + tier_,
         })
         if refused:
             out.notes.append('refused/unsupported: ' + '; '.join(sorted({str(x.get('url')) + ' ' + x['ev'] for x in refused})[:6]))
